@@ -48,7 +48,7 @@ SELECT_BUILDERS = {
     "having": "COUNT(*) > 1", "distinct": None, "qualify": "rn = 1", "sort_by": "sb", "cluster_by": "cb", "lateral": "lt AS l", "window": "w AS (PARTITION BY p)",
 }
 WRAP_BUILDERS = ["and_", "or_", "not_", "as_", "subquery", "isin", "between", "like", "eq", "neq", "is_", "desc", "asc", "with_", "union", "limit_q"]
-NM_FUNCS = ["sql", "sql", "sql", "optimize", "qualify_copy", "annotate_copy", "diff", "diff", "lineage", "expand", "replace_tables", "replace_placeholders",
+NM_FUNCS = ["update_fn", "insert_fn", "column_fn", "placeholders_expr", "sql", "sql", "sql", "optimize", "qualify_copy", "annotate_copy", "diff", "diff", "lineage", "expand", "replace_tables", "replace_placeholders",
             "maybe_parse_copy", "binop", "dump", "alias_", "subquery_fn", "not_fn", "and_fn", "cast_fn", "find_tables", "to_s", "union_fn", "copy_eq"]
 BAD_SQL = "SELECT (((("
 
@@ -878,6 +878,21 @@ def _apply_nm(world, op, st, res, target):
                 r = exp.replace_tables(t, {"x": "xx.yy", "t": "c.d.t2"}, dialect=d)
             elif f == "replace_placeholders":
                 r = exp.replace_placeholders(t, 1, "s", a=2)
+            elif f == "placeholders_expr":
+                # substitution VALUES given as Expressions taken from a live tree: they must not be adopted by the result
+                r = exp.replace_placeholders(sqlglot.parse_one("SELECT :a, :a, ? FROM t WHERE x = :b"), n2, a=n, b=n2)
+                res["nm"].append(t2)
+            elif f == "update_fn":
+                cond = n if isinstance(n, exp.Condition) and not isinstance(n, exp.Query) else "k = 1"
+                r = exp.update("tgt", {"x": n2, "y": 1}, where=cond, from_=None)
+                res["nm"].append(t2)
+            elif f == "insert_fn":
+                q = t if isinstance(t, exp.Query) else "SELECT 1 AS a"
+                r = exp.insert(q, "tgt", columns=["a"], returning=n2 if isinstance(n2, (exp.Column, exp.Star)) else None)
+                res["nm"].append(t2)
+            elif f == "column_fn":
+                r = exp.column(n if isinstance(n, (exp.Identifier, exp.Star)) else "c", table=n2 if isinstance(n2, exp.Identifier) else "tt")
+                res["nm"].append(t2)
             elif f == "maybe_parse_copy":
                 r = exp.maybe_parse(n, copy=True)
             elif f == "binop":
